@@ -199,16 +199,23 @@ BkClose(n) ==
   /\ UNCHANGED <<nsent, cbuf, cclosed, copen, closing, inq, msg, frag, outfq, infq, sopen, sgen, tasks, ttree,
                  expired, b2p, hops, phase, ready, seen, efd, wcall, wread, halted, out>>
 
-Expire ==   \* time passes: the earliest deadline not yet reached is reached
-  /\ Env /\ TimeoutOn
+ClientReady(c) == copen[c] /\ (cbuf[c] # <<>> \/ cclosed[c])
+NodeReady(n)   == sopen[n] /\ (b2p[n] # <<>> \/ bclosed[n])
+ReadyFds == {<<"c", c>> : c \in {x \in Clients : ClientReady(x)}} \cup {<<"s", n>> : n \in {x \in Nodes : NodeReady(x)}}
+
+\* time passes: the earliest deadline not yet reached is reached.  w: the loop is woken up at once (the periodic probe
+\* happens to follow); otherwise the expiry is noticed by the scan of whichever iteration comes next (in the exhaustive
+\* configurations only allowed when something is already waiting to be read, so that there is such an iteration)
+Expire(w) ==
+  /\ Env /\ TimeoutOn /\ (CanonKinds /\ ~w => ReadyFds # {})
   /\ \E j \in 1..Len(ttree) :
        /\ ttree[j] \notin expired
        /\ \A k \in 1..(j-1) : ttree[k] \in expired
        /\ expired' = expired \cup {ttree[j]}
        /\ mon' = MonApply(mon, [Ev0 EXCEPT !.ev = "expire", !.c = ttree[j][1], !.i = ttree[j][2], !.fid = "f",
                                             !.slots = <<ttree[j][3]>>])
-  /\ efd' = TRUE        \* the periodic probe (in the harness: an explicit wake-up) makes the loop notice
-  /\ sched' = Append(sched, [op |-> "expire", c |-> "", n |-> "", req |-> [k |-> "", slots |-> <<>>], kind |-> "", cls |-> "", to |-> ""])
+  /\ efd' = IF w THEN TRUE ELSE efd
+  /\ sched' = Append(sched, [op |-> "expire", c |-> "", n |-> "", req |-> [k |-> "", slots |-> <<>>], kind |-> IF w THEN "wake" ELSE "", cls |-> "", to |-> ""])
   /\ UNCHANGED <<nsent, cbuf, cclosed, copen, closing, inq, msg, frag, outfq, infq, sopen, sgen, tasks, ttree,
                  bq, b2p, bclosed, nclose, hops, phase, ready, seen, wcall, wread, halted, out>>
 
@@ -223,9 +230,6 @@ Wake ==
 -----------------------------------------------------------------------------
 (* The poller iteration *)
 
-ClientReady(c) == copen[c] /\ (cbuf[c] # <<>> \/ cclosed[c])
-NodeReady(n)   == sopen[n] /\ (b2p[n] # <<>> \/ bclosed[n])
-ReadyFds == {<<"c", c>> : c \in {x \in Clients : ClientReady(x)}} \cup {<<"s", n>> : n \in {x \in Nodes : NodeReady(x)}}
 TimerDue == \E j \in 1..Len(ttree) : ttree[j] \in expired /\ ~frag[ttree[j]].done
 
 StartIter ==
@@ -535,9 +539,12 @@ RunTasks ==
   /\ phase = "tasks"
   /\ LET h == RunAll(Heap) IN
      \* after the batch wakeupCall is cleared (the queue is empty: nothing to re-signal for)
-     SetHeap([h EXCEPT !.wcall = FALSE])
+     /\ SetHeap([h EXCEPT !.wcall = FALSE])
+     \* enqueueInFrag gives every fragment it writes a new deadline: a fragment that is written again (after a
+     \* redirect) is no longer expired
+     /\ expired' = expired \ (SeqRange(h.ttree) \ SeqRange(ttree))
   /\ phase' = "tmo" /\ wread' = FALSE
-  /\ UNCHANGED <<nsent, cbuf, cclosed, expired, nclose, hops, ready, seen, halted, sched>>
+  /\ UNCHANGED <<nsent, cbuf, cclosed, nclose, hops, ready, seen, halted, sched>>
 
 \* msgTimeout: scan the tree from the earliest deadline
 RECURSIVE Scan(_)
@@ -582,7 +589,7 @@ Next ==
   \/ \E c \in Clients : CliClose(c)
   \/ \E n \in Nodes, a \in AnswerKinds : BkAnswer(n, a)
   \/ \E n \in Nodes : BkClose(n)
-  \/ Expire
+  \/ \E w \in BOOLEAN : Expire(w)
   \/ Wake
   \/ StartIter
   \/ ReadWake
@@ -595,6 +602,14 @@ Next ==
   \/ Quiesce
 
 Spec == Init /\ [][Next]_vars
+
+\* Liveness.  The environment's choices are bounded (requests, closes, redirect hops, expiries), so under weak
+\* fairness of the whole next-state relation every behaviour must reach quiescence: the proxy has no internal
+\* cycle (a redirect or a re-queued fragment bouncing for ever, an iteration that always leaves work for the next)
+\* - "redirect handling always terminates" (C13), and with NoViolation at quiescence: nobody is left waiting (C09,
+\* C15, C16).
+FairSpec == Spec /\ WF_vars(Next)
+Terminates == <>halted
 
 -----------------------------------------------------------------------------
 NoViolation == mon.viol = {}
